@@ -4,7 +4,7 @@
    id lists are comma separated, state sets are separated by semicolons; the table lists the
    verdicts of the real auth rules for (event, provider contents) pairs, one per line:
    event id, a bar, the sorted provider ids, a bar, 1 or 0. *)
-From Verif Require Import Lib.Bytes StateRes.Event StateRes.Kahn StateRes.V2 StateRes.V1 StateRes.Entry.
+From Verif Require Import Lib.Bytes StateRes.Event StateRes.Kahn StateRes.V2 StateRes.V1 StateRes.Entry StateRes.V2Spec StateRes.Wf.
 Open Scope N_scope.
 
 Definition idsort (l : list bytes) : list bytes := ssort bytes_cmp l.
@@ -206,6 +206,58 @@ Definition run_stages (args : list bytes) : bytes :=
   | _ => bs "badargs"
   end.
 
+
+(* ---------- specification oracles (StateRes/V2Spec.v) on the implementation's stage outputs ---------- *)
+Definition sets_are_lists_without_repeats (ss : list (list event)) : bool :=
+  forallb (fun s => nodup_bytes (ids_of s)) ss.
+
+Definition state_events (l : list event) : list event :=
+  filter (fun e => match e_skey e with Some _ => true | None => false end) l.
+
+(* v1: a key is conflicted when the sets hold different events for it *)
+Definition spec_unconflicted_v1b (sets : list (list event)) (e : event) : bool :=
+  match e_skey e with
+  | None => false
+  | Some _ => forallb (fun s => forallb (fun e' => negb (same_key e' e) || bytes_eqb (e_id e') (e_id e)) s) sets
+  end.
+
+Definition spec_split (v1 : bool) (ss : list (list event)) : list event * list event :=
+  let all := state_events (dedup_events (concat ss)) in
+  let unc := if v1 then spec_unconflicted_v1b ss else spec_unconflictedb ss in
+  (filter (fun e => negb (unc e)) all, filter unc all).
+
+(* [ver; universe; sets; event JSONs; observable] *)
+Definition prop_split (args : list bytes) : bytes :=
+  match args with
+  | [ver; u; sets; _; obs] =>
+      let un := decode_universe u in
+      let ss := parse_sets un sets in
+      if negb (sets_are_lists_without_repeats ss) then bs "ok"
+      else
+        let cu := spec_split (is_v1 ver) ss in
+        let want := out_sorted (fst cu) ++ [c_semi] ++ out_sorted (snd cu) in
+        if bytes_eqb want obs then bs "ok" else bs "FAIL spec says " ++ want
+  | _ => bs "badargs"
+  end.
+
+(* [ver; universe; sets; auth; event JSONs; observable] *)
+Definition prop_authdiff (args : list bytes) : bytes :=
+  match args with
+  | [ver; u; sets; auth; _; obs] =>
+      let un := decode_universe u in
+      let ss := parse_sets un sets in
+      if negb (sets_are_lists_without_repeats ss) then bs "ok"
+      else
+        let authmap := dedup_events (lookup_ids un (parse_ids auth)) in
+        let d := spec_auth_difference_list authmap ss in
+        let all := if is_v21 ver
+                   then union_events d (spec_conflicted_subgraph_list authmap (fst (spec_split false ss)) ss)
+                   else d in
+        let want := out_sorted all in
+        if bytes_eqb want obs then bs "ok" else bs "FAIL spec says " ++ want
+  | _ => bs "badargs"
+  end.
+
 Definition ops_C10 : list (bytes * (list bytes -> bytes)) :=
   [ (bs "C10.split", run_split);
     (bs "C10.authdiff_new", run_authdiff_new);
@@ -216,4 +268,6 @@ Definition ops_C10 : list (bytes * (list bytes -> bytes)) :=
     (bs "C10.mainline_order", run_mainline_order);
     (bs "C10.resolve_new", run_resolve_new);
     (bs "C10.resolve_old", run_resolve_old);
-    (bs "C10.stages", run_stages) ].
+    (bs "C10.stages", run_stages);
+    (bs "C10.prop.split", prop_split);
+    (bs "C10.prop.authdiff", prop_authdiff) ].
